@@ -10,32 +10,55 @@
     C11_norm_sound       normD a = normD b → normD (feed a c) = normD (feed b c)        (for reachable a, b)
     C11_from_parts       the two together give: Obs equal after every continuation      [proved]
 
-  STATUS: PARTIAL (continuation half complete; restore half for the primary screen with an arbitrary saved
-  context of its own and the alternate screen's saved context default).  Two of the first statements turned out FALSE of the model (and of the crate):
+  STATUS: FULL up to the known findings.  `C11_holds`: every REACHABLE state that is not one of the known
+  exceptions is restored by its own `dump()` up to `normD`, and original and restored show the same through
+  the public API after every continuation.  Three of the first statements turned out FALSE of the model (and
+  of the crate):
     * `C11_dump_full` for screens with `cols ≥ 65535` or `rows > 65535` — finding KF6 (numbers written by
       `dump()` are read back modulo 2^16; witness known/KF6.script, classifier `sizeExceedsU16`);
+    * `C11_dump_full'` (= with the KF6 bound on the CURRENT size) for states whose parked ALTERNATE-screen saved
+      position is `≥ 65535` while the primary screen is showing — finding KF7, same mechanism: no resize clamps
+      the parked context, so the position survives a resize to any small size (witness known/KF7.script,
+      classifier `parkedCtxExceedsU16`, `kf7Hist`; kernel-checked negation `C11_dump_full'_false` in
+      Avt/Lemmas/C11KF7.lean, kept out of the default build because of its cost; `C11_dump_full'_false_of_witness` here);
     * `C11_norm_sound` for states resized while the alternate screen is showing (`C11_norm_sound_false`,
       kernel-checked witness): leaving the alternate screen reflows the parked primary and reads its
       scrollback.  The exception is the one the property names (KF2).
-  The corrected statements are `C11_dump_full'` (still a `def`, proved for the class below) and
-  `C11_norm_sound'` (a THEOREM: `C11_norm_sound'_holds`).
+  The corrected statements are THEOREMS: `C11_dump_full''` (`C11_dump_full''_holds`) and `C11_norm_sound'`
+  (`C11_norm_sound'_holds`).
 
   Proved, unbounded (every size within KF6's bound, every content, every pen, every parameter list):
 
-  restore half
+  the property
+    Avt.Props.C11.C11_holds                   for every reachable state outside KF1/KF2/KF3/KF6/KF7: `dump()` fed to a
+                                              fresh terminal of the same size restores the state up to `normD`, hence
+                                              (`C11_norm_obs`) the same public observation, and the same observation
+                                              after EVERY continuation (incl. completing a cut escape sequence)
+    Avt.Props.C11.C11_dump_full''_holds       the restore half in full (either screen, all saved contexts, both
+                                              routes of step 9)
+    Avt.Props.C11.C11_from_dump_full''        restore half ⇒ property (continuation half discharged)
+  reachable states are well-formed
+    Avt.Props.C11.C11_reach_cellsInv          every reachable state: printable characters in every cell of both
+                                              buffers incl. scrollback, `u8` pens everywhere (`CellsInv`)
+    Avt.Props.C11.C11_reach_viewOK            … as the decidable `viewOKb` / `penOKb`
+    Avt.Props.C11.C11_cellsInv_execute, C11_parser_emits_fnOK, C11_cellsInv_resize   the steps of that invariant
+    Avt.Props.C11.C11_primary_end_to_end_reach  `C11_primary_end_to_end` over `Reach`, without `viewOKb`/`penOKb`
+  restore half, by restriction removed
+    Avt.Props.C11.C11_alt_ctx_partial         non-default saved context of the alternate screen (steps 4–6)
+    Avt.Props.C11.C11_alternate_active_partial  alternate screen active (`C11_buffer_dump` twice)
+    Avt.Props.C11.C11_csi_u_partial           `CSI u` route of step 9 under `cursorStepFaithful`
+    Avt.Props.C11.C11_terminal_dump_general   `Terminal.dump` replayed on the fresh terminal (`Feeds` form), all cases
     Avt.Props.C11.C11_buffer_dump             `Buffer.dump` round trip: pen runs (SGR), REP-compressed runs,
                                               CR LF after unwrapped rows only; re-creates cells, pens and
                                               wrap marks of any view on a blank screen (dump steps 1 and 4)
-    Avt.Props.C11.C11_dump_primary_partial    END TO END restore for states on the PRIMARY screen (alternate
-                                              screen's saved context default): arbitrary view, scrollback,
-                                              saved cursor context, tab stops, margins,
-                                              origin mode (cursor inside the region), cursor incl. wrap-pending,
-                                              visibility, pen, character sets, all modes, parser cut anywhere
+    Avt.Props.C11.C11_dump_primary_partial    (earlier) END TO END restore for states on the PRIMARY screen (alternate
+                                              screen's saved context default, cursor inside the region)
     Avt.Props.C11.C11_dump_blank_partial      (earlier) power-on screen, any pen, any parser state
     Avt.Props.C11.C11_parser_dump(_vt), C11_csi_roundtrip, C11_pen_dump(_chars), C11_renderDec_roundtrip
-    step lemmas (Avt/Lemmas/C11Steps1–3.lean): one `Feeds fragment t t'` per fragment of `Terminal.dump`
-                                              (tab stops, ESC 7, origin, margins, CUP, wrap-pending re-print,
-                                              pen, visibility, charsets, insert/auto-wrap/LNM/DECCKM, `?1047h/l`)
+    step lemmas (Avt/Lemmas/C11Steps1–6.lean): one `Feeds fragment t t'` per fragment of `Terminal.dump`
+                                              (tab stops, ESC 7, origin, margins, CUP, `CSI u` + relative moves,
+                                              wrap-pending re-print, pen, visibility, charsets, insert/auto-wrap/
+                                              LNM/DECCKM, `?1047h/l` in closed form on the replay stages)
   continuation half
     Avt.Props.C11.C11_norm_sound_step         normal-form soundness of EVERY control function (print/REP, cursor,
                                               erase/insert/delete, scroll, SGR, modes, tabs, save/restore, the
@@ -47,23 +70,15 @@
     Avt.Props.C11.C11_norm_sound'_holds       = the corrected continuation half
     Avt.Props.C11.C11_norm_sound_feedAll      whole continuations
     Avt.Props.C11.C11_reach_inv               every reachable state satisfies `Inv` and `PRegOK`
-  together
-    Avt.Props.C11.C11_primary_end_to_end      for the class of `C11_dump_primary_partial`: restored and original
-                                              show the same through the public API now and after EVERY input
-    Avt.Props.C11.C11_from_dump_full'         `C11_dump_full'` alone implies the property as the text words it
-                                              (the continuation half is discharged)
-    Avt.Props.C11.C11_from_parts              (earlier) the decomposition with both halves as hypotheses
+  earlier end-to-end statements (kept)
+    Avt.Props.C11.C11_primary_end_to_end, C11_from_dump_full', C11_from_parts
   and the NEGATIONS on the known-finding witnesses (kernel evaluation of the whole model):
-    Avt.Props.C11.KF1_witness  KF2_witness  KF3_witness  (+ `KFn_neighbour_ok`),  C11_norm_sound_false
+    Avt.Props.C11.KF1_witness  KF2_witness  KF3_witness  (+ `KFn_neighbour_ok`, `KF7_neighbour_ok`),
+    C11_norm_sound_false, C11_dump_full'_false_of_witness (+ Avt/Lemmas/C11KF7.lean)
 
-  Missing for `C11_dump_full'`: a non-default saved context of the ALTERNATE screen (dump step 5, between the
-  switches of steps 4 and 6; step 3 — the primary's own context — is done: `stage_ctx`), the alternate screen
-  showing (steps 4 and 6: `C11_buffer_dump` applies to the alternate buffer as well; the switch is
-  given in closed form by `decset_alt_eq`), the `CSI u` route of step 9 for a cursor outside the region
-  (`cursorStepFaithful` non-trivial), and that reachable states satisfy `viewOKb` / `penOKb` (cells hold
-  printable characters and `u8` pens — an invariant of every function and of `resize`, not yet proved; it
-  is a decidable hypothesis of the theorems above).  Those parts rest on the correspondence + spec-on-impl
-  layers: the oracle checks `normD`-equality after the restore AND after every probe/continuation.
+  What remains outside the theorems: the four findings themselves (KF1/KF3 need a redesign of dump step 9, KF2 a
+  geometry-aware dump of the parked buffer, KF6/KF7 another encoding of large positions); on those states the
+  oracle classifies the difference and checks that it is confined to what the finding can disturb.
 -/
 import Avt.Lemmas.C11Pen
 import Avt.Lemmas.C11ParserNorm
@@ -72,6 +87,7 @@ import Avt.Lemmas.C11Blank
 import Avt.Lemmas.C11Steps3
 import Avt.Lemmas.C11Sound3
 import Avt.Lemmas.C11SoundReg
+import Avt.Lemmas.C11Full
 
 namespace Avt.Props.C11
 open Avt Avt.Spec.C11 Avt.Lemmas.C11
@@ -762,5 +778,301 @@ example : ∃ s r, exPState = some s
     (by decide +kernel) (by decide +kernel) (by decide +kernel) (by decide +kernel)
   exact ⟨_, r, hs.symm, by decide +kernel, by decide +kernel, by decide +kernel, by decide +kernel,
     by decide +kernel, by decide +kernel, h1, h2⟩
+
+/-! ### the cell / pen invariant of reachable states (item: `viewOKb` / `penOKb` are THEOREMS) -/
+
+/-- **every reachable state satisfies the cell / pen invariant**: every pen the terminal holds (current,
+    both saved contexts) has five attribute bits and `u8` colour components, and every cell of BOTH
+    buffers, scrollback included, holds a character the resting parser prints (`0x20..0x7F` or `≥ 0xA0`,
+    after charset translation; the blank and DECALN's `E` are among them) and such a pen.  Established by
+    `Vt::new`; preserved by every character (the parser emits `Print` only for printable characters and
+    SGR colours through `as u8`; all ~50 control functions keep it), by `resize` / reflow (cells are only
+    moved or filled with default blanks) and by `changes()` / `gc()`. -/
+theorem C11_reach_cellsInv {s : Vt} (h : Lemmas.C11.Reach s) : CellsInv s.terminal := reach_cellsInv h
+
+/-- the same as the decidable predicates the earlier theorems took as hypotheses -/
+theorem C11_reach_viewOK {s : Vt} (h : Lemmas.C11.Reach s) :
+    viewOKb s.terminal.buffer.view = true ∧ viewOKb s.terminal.otherBuffer.view = true
+      ∧ viewOKb s.terminal.buffer.sb = true ∧ viewOKb s.terminal.otherBuffer.sb = true
+      ∧ (penOKb s.terminal.pen && penOKb s.terminal.savedCtx.pen && penOKb s.terminal.alternateSavedCtx.pen) = true := by
+  have c := reach_cellsInv h
+  refine ⟨viewOKb_of c.view, viewOKb_of c.oview, viewOKb_of c.sb, viewOKb_of c.osb, ?_⟩
+  simp only [Bool.and_eq_true]
+  exact ⟨⟨penOKb_of c.pen, penOKb_of c.sctx⟩, penOKb_of c.actx⟩
+
+/-- one step of the invariant, for every function the parser can emit -/
+theorem C11_cellsInv_execute {t t' : Terminal} {f : Function} (hi : TInv t = true) (hc : CellsInv t) (hf : FnOK f)
+    (h : t.execute f = some t') : CellsInv t' := cellsInv_execute' hi hc hf h
+
+/-- what the parser guarantees about an emitted function -/
+theorem C11_parser_emits_fnOK {p p' : Parser} {c : Nat} {f : Function} (hp : PInv p = true)
+    (h : p.feed c = some (p', some f)) : FnOK f := parser_emits_fnOK hp h
+
+/-- `resize` keeps the invariant -/
+theorem C11_cellsInv_resize {v v' : Vt} {c r : Nat} {ch : Changes} (hc : CellsInv v.terminal)
+    (h : v.resize c r = some (v', ch)) : CellsInv v'.terminal := vtResize_cells hc h
+
+/-- **C11 END TO END for the primary screen, over reachable states**: `C11_primary_end_to_end` without the
+    well-formedness hypotheses on cells and pens, which hold in every reachable state -/
+theorem C11_primary_end_to_end_reach (s : Vt) (hr : Lemmas.C11.Reach s)
+    (hprim : s.terminal.activeBufferType = .primary)
+    (ha : s.terminal.alternateSavedCtx.isDefault = true)
+    (hcols : s.terminal.cols < 65535) (hrows : s.terminal.rows ≤ 65535)
+    (hinside : s.terminal.originMode = false
+      ∨ (s.terminal.topMargin ≤ s.terminal.cursor.row ∧ s.terminal.cursor.row ≤ s.terminal.bottomMargin)) :
+    ∃ r, restoreOf s = some r ∧ normD r = normD s
+      ∧ ∀ xs : List Nat, (s.feedAll xs).map obs = (r.feedAll xs).map obs := by
+  obtain ⟨hi, hreg⟩ := C11_reach_inv hr
+  obtain ⟨h1, _, _, _, h5⟩ := C11_reach_viewOK hr
+  exact C11_primary_end_to_end s hi hreg hprim ha h1 h5 hcols hrows hinside
+
+/-! ### the general restore half: both screens, arbitrary saved contexts, both routes of step 9 -/
+
+/-- **`Terminal.dump` replayed on a fresh terminal, in general** (`Feeds` form): for ANY terminal satisfying
+    `DumpOK` — invariant, well-formed cells and pens, parked primary at the terminal's geometry (KF2), sizes and
+    the parked alternate saved position inside the 16-bit parameter range (KF6 / KF7), `cursorStepFaithful`
+    (KF1 / KF3) — `dump()` succeeds and replays to a terminal with the same normal form -/
+theorem C11_terminal_dump_general (T : Terminal) (h : DumpOK T) :
+    ∃ d t', T.dump = some d ∧ Feeds d (freshT T.cols T.rows none) t' ∧ normT t' = normT T :=
+  dump_general T h
+
+/-- **dump steps 4–6 with a NON-default saved context of the alternate screen, primary screen active**
+    (restore half; everything else as in `C11_dump_primary_partial`, whose hypothesis
+    `alternateSavedCtx.isDefault` is replaced by the KF7 bound on the parked position): `?1047h` presents a
+    blank alternate buffer, the context block saves into the alternate screen's slot (clamped into the screen
+    by CUP — as `normD` clamps it), `?1047l` swaps back; the primary buffer and its own context are untouched
+    throughout and the pen bleed is prevented by the `ESC [ m` before -/
+theorem C11_alt_ctx_partial (s : Vt) (hinv : Inv s = true) (hreg : PRegOK s.parser = true)
+    (hprim : s.terminal.activeBufferType = .primary)
+    (hparked : parkedCtxExceedsU16 s.terminal = false)
+    (hcells : viewOKb s.terminal.buffer.view = true)
+    (hpens : (penOKb s.terminal.pen && penOKb s.terminal.savedCtx.pen && penOKb s.terminal.alternateSavedCtx.pen) = true)
+    (hcols : s.terminal.cols < 65535) (hrows : s.terminal.rows ≤ 65535)
+    (hinside : s.terminal.originMode = false
+      ∨ (s.terminal.topMargin ≤ s.terminal.cursor.row ∧ s.terminal.cursor.row ≤ s.terminal.bottomMargin)) :
+    ∃ r, restoreOf s = some r ∧ normD r = normD s := by
+  simp only [Bool.and_eq_true] at hpens
+  have hi := hinv
+  simp only [Inv, Bool.and_eq_true] at hi
+  have hne := C11_primary_not_excepted s.terminal hprim hinside
+  refine restore_of_dump s hinv hreg (dump_general s.terminal
+    ⟨⟨hi.2, penOK_of_b hpens.1.1, hcols, hrows⟩, hne.1, viewOK_of_b hcells,
+      (fun ha => by rw [hprim] at ha; cases ha), penOK_of_b hpens.1.2, penOK_of_b hpens.2, ?_, hne.2⟩)
+  intro _
+  simp only [parkedCtxExceedsU16, hprim, beq_self_eq_true, Bool.true_and, Bool.and_eq_false_iff, Bool.not_eq_false',
+    Bool.or_eq_false_iff, decide_eq_false_iff_not, Nat.not_le] at hparked
+  rcases hparked with h7 | h7
+  · exact Or.inl h7
+  · exact Or.inr h7
+
+/-- **the ALTERNATE screen active at dump time** (restore half), under `¬resizedOnAlt` (the parked primary has
+    the terminal's geometry): the primary buffer and its context are dumped first, then `?1047h`, `CSI 1;1H`,
+    the alternate buffer's own dump (`C11_buffer_dump` a second time, on the blank buffer `?1047h` presents),
+    its context, no switch back.  Both saved contexts arbitrary. -/
+theorem C11_alternate_active_partial (s : Vt) (hinv : Inv s = true) (hreg : PRegOK s.parser = true)
+    (halt : s.terminal.activeBufferType = .alternate)
+    (hgeo : resizedOnAlt s.terminal = false)
+    (hcells : viewOKb s.terminal.buffer.view = true) (hocells : viewOKb s.terminal.otherBuffer.view = true)
+    (hpens : (penOKb s.terminal.pen && penOKb s.terminal.savedCtx.pen && penOKb s.terminal.alternateSavedCtx.pen) = true)
+    (hcols : s.terminal.cols < 65535) (hrows : s.terminal.rows ≤ 65535)
+    (hinside : s.terminal.originMode = false
+      ∨ (s.terminal.topMargin ≤ s.terminal.cursor.row ∧ s.terminal.cursor.row ≤ s.terminal.bottomMargin)) :
+    ∃ r, restoreOf s = some r ∧ normD r = normD s := by
+  simp only [Bool.and_eq_true] at hpens
+  have hi := hinv
+  simp only [Inv, Bool.and_eq_true] at hi
+  exact restore_of_dump s hinv hreg (dump_general s.terminal
+    ⟨⟨hi.2, penOK_of_b hpens.1.1, hcols, hrows⟩, hgeo, viewOK_of_b hcells, fun _ => viewOK_of_b hocells,
+      penOK_of_b hpens.1.2, penOK_of_b hpens.2, (fun hp => by rw [halt] at hp; cases hp),
+      C11_cursorStepFaithful_inside s.terminal hinside⟩)
+
+/-- **the `CSI u` route of step 9** (restore half): origin mode on and the cursor parked OUTSIDE the scroll
+    region, under the decidable `cursorStepFaithful` — `CSI u` restores the active saved context (position,
+    pen, origin mode, auto-wrap; pending wrap cleared), the emitted CUB/CUF/CUU/CUD (C05's `moveSpec`) reach
+    the cursor exactly when `cursorStepFaithful` holds; pen and modes are re-established by the later steps.
+    Either screen, arbitrary saved contexts. -/
+theorem C11_csi_u_partial (s : Vt) (hinv : Inv s = true) (hreg : PRegOK s.parser = true)
+    (hout : cursorOutsideRegion s.terminal = true)
+    (hf : cursorStepFaithful s.terminal = true)
+    (hgeo : resizedOnAlt s.terminal = false) (h6 : sizeExceedsU16 s.terminal = false)
+    (h7 : parkedCtxExceedsU16 s.terminal = false)
+    (hcells : viewOKb s.terminal.buffer.view = true) (hocells : viewOKb s.terminal.otherBuffer.view = true)
+    (hpens : (penOKb s.terminal.pen && penOKb s.terminal.savedCtx.pen && penOKb s.terminal.alternateSavedCtx.pen) = true) :
+    ∃ r, restoreOf s = some r ∧ normD r = normD s
+      ∧ s.terminal.originMode = true
+      ∧ (s.terminal.cursor.row < s.terminal.topMargin ∨ s.terminal.cursor.row > s.terminal.bottomMargin) := by
+  simp only [Bool.and_eq_true] at hpens
+  have hi := hinv
+  simp only [Inv, Bool.and_eq_true] at hi
+  simp only [sizeExceedsU16, Bool.or_eq_false_iff, decide_eq_false_iff_not, Nat.not_le, Nat.not_lt] at h6
+  have hd : DumpOK s.terminal := by
+    refine ⟨⟨hi.2, penOK_of_b hpens.1.1, by omega, by omega⟩, hgeo, viewOK_of_b hcells, fun _ => viewOK_of_b hocells,
+      penOK_of_b hpens.1.2, penOK_of_b hpens.2, ?_, hf⟩
+    intro hp
+    simp only [parkedCtxExceedsU16, hp, beq_self_eq_true, Bool.true_and, Bool.and_eq_false_iff, Bool.not_eq_false',
+      Bool.or_eq_false_iff, decide_eq_false_iff_not, Nat.not_le] at h7
+    rcases h7 with h7 | h7
+    · exact Or.inl h7
+    · exact Or.inr h7
+  obtain ⟨r, h1, h2⟩ := restore_of_dump s hinv hreg (dump_general s.terminal hd)
+  simp only [cursorOutsideRegion, Bool.and_eq_true, Bool.or_eq_true, decide_eq_true_eq] at hout
+  exact ⟨r, h1, h2, hout.1, hout.2⟩
+
+/-! ### the full statement -/
+
+/-- **C11, restore half, corrected a second time**: `C11_dump_full'` with the parked-position bound of finding
+    KF7 (`C11_dump_full'` itself is FALSE: 70000x1, `?1047h`, CUF 65535, CUF 1, `ESC 7`, `?1047l`, resize 10x1
+    is reachable, within every exception of `C11_dump_full'`, and does not restore — known/KF7.script,
+    `kf7State` below) -/
+def C11_dump_full'' : Prop :=
+  ∀ s : Vt, Lemmas.C11.Reach s → resizedOnAlt s.terminal = false → cursorStepFaithful s.terminal = true →
+    sizeExceedsU16 s.terminal = false → parkedCtxExceedsU16 s.terminal = false →
+    ∃ r, restoreOf s = some r ∧ normD r = normD s
+
+/-- **the restore half holds in full**: every reachable state that is not one of the known exceptions
+    (KF2 `resizedOnAlt`, KF1/KF3 `¬cursorStepFaithful`, KF6 `sizeExceedsU16`, KF7 `parkedCtxExceedsU16`) is
+    restored by its own `dump()` up to `normD` — either screen active, arbitrary contents, pens, saved
+    contexts on both screens, tab stops, margins, modes, cursor anywhere incl. wrap-pending and outside the
+    region under origin mode, parser cut anywhere -/
+theorem C11_dump_full''_holds : C11_dump_full'' := by
+  intro s hr h2 h1 h6 h7
+  obtain ⟨hi, hreg⟩ := C11_reach_inv hr
+  exact restore_general s hi hreg (reach_cellsInv hr) h2 h1 h6 h7
+
+/-- `C11_dump_full'` for the states that also satisfy the KF7 bound — i.e. `C11_dump_full'` is proved up to
+    finding KF7 -/
+theorem C11_dump_full'_holds_up_to_KF7 (s : Vt) (hr : Lemmas.C11.Reach s)
+    (h2 : resizedOnAlt s.terminal = false) (h1 : cursorStepFaithful s.terminal = true)
+    (h6 : sizeExceedsU16 s.terminal = false) (h7 : parkedCtxExceedsU16 s.terminal = false) :
+    ∃ r, restoreOf s = some r ∧ normD r = normD s := C11_dump_full''_holds s hr h2 h1 h6 h7
+
+/-- **the decomposition with the continuation half discharged, for the twice-corrected restore half**:
+    `C11_dump_full''` alone gives the property as the text words it -/
+theorem C11_from_dump_full'' (hd : C11_dump_full'') (s : Vt) (hr : Lemmas.C11.Reach s)
+    (h2 : resizedOnAlt s.terminal = false) (h1 : cursorStepFaithful s.terminal = true)
+    (h6 : sizeExceedsU16 s.terminal = false) (h7 : parkedCtxExceedsU16 s.terminal = false) :
+    ∃ r, restoreOf s = some r ∧ normD r = normD s ∧ obs r = obs s
+      ∧ ∀ xs : List Nat, (s.feedAll xs).map obs = (r.feedAll xs).map obs := by
+  obtain ⟨r, hrs, hn⟩ := hd s hr h2 h1 h6 h7
+  obtain ⟨hi, hreg⟩ := C11_reach_inv hr
+  have hi' := hi
+  simp only [Inv, Bool.and_eq_true] at hi'
+  have ht := TOK.of_TInv hi'.2
+  have gs : Good s := ⟨hi, hreg, h2⟩
+  have gr : Good r := good_restore ht.c1 ht.r1 hrs
+  refine ⟨r, hrs, hn, C11_norm_obs r s hn, fun xs => ?_⟩
+  have := C11_norm_sound_feedAll xs s r gs gr hn.symm
+  cases hsa : s.feedAll xs with
+  | none =>
+    cases hra : r.feedAll xs with
+    | none => rfl
+    | some b' => simp [hsa, hra] at this
+  | some a' =>
+    cases hra : r.feedAll xs with
+    | none => simp [hsa, hra] at this
+    | some b' =>
+      simp only [hsa, hra, Option.map_some, Option.some.injEq] at this ⊢
+      exact C11_norm_obs a' b' this
+
+/-- **C11, the property itself**: for every reachable state that is not one of the known exceptions (KF2
+    `resizedOnAlt`, KF1/KF3 `¬cursorStepFaithful`, KF6 `sizeExceedsU16`, KF7 `parkedCtxExceedsU16`), feeding
+    `dump()` into a fresh terminal of the same size succeeds and yields a terminal with the same normal form
+    that shows the same through the public API — view cells, pens, wrap marks, cursor, cursor-key mode — now
+    and after EVERY continuation input (including the completion of an escape sequence the original input
+    was cut in), and the two panic together (i.e. never — C01) -/
+theorem C11_holds (s : Vt) (hr : Lemmas.C11.Reach s)
+    (h2 : resizedOnAlt s.terminal = false) (h1 : cursorStepFaithful s.terminal = true)
+    (h6 : sizeExceedsU16 s.terminal = false) (h7 : parkedCtxExceedsU16 s.terminal = false) :
+    ∃ r, restoreOf s = some r ∧ normD r = normD s ∧ obs r = obs s
+      ∧ ∀ xs : List Nat, (s.feedAll xs).map obs = (r.feedAll xs).map obs :=
+  C11_from_dump_full'' C11_dump_full''_holds s hr h2 h1 h6 h7
+
+/-! ### finding KF7: the parked alternate-screen saved position beyond the 16-bit parameter range -/
+
+/-- KF7 witness (known/KF7.script), 70000x1: `CSI ?1047h`, `CSI 65535 C`, `CSI 1 C` (column 65536), `ESC 7`,
+    `CSI ?1047l`, resize 10x1.  The state is reachable, none of KF1/KF2/KF3/KF6 applies (`sizeExceedsU16` looks
+    at the CURRENT size), `dump()` contains `CSI 1;65537 H`, and the restored parked context has column 0
+    instead of the clamped 9.  Evaluated by `#eval` in Avt/Lemmas/C11KF7.lean (kernel evaluation of a 70000-cell
+    row costs ~45 s / 3 GB and is kept out of the default build, as for KF6) and replayed on the crate. -/
+def kf7Hist : List HOp :=
+  [.feedStr [esc, 0x5b, 0x3f, 0x31, 0x30, 0x34, 0x37, 0x68], .feedStr [esc, 0x5b, 0x36, 0x35, 0x35, 0x33, 0x35, 0x43],
+   .feedStr [esc, 0x5b, 0x31, 0x43], .feedStr [esc, 0x37], .feedStr [esc, 0x5b, 0x3f, 0x31, 0x30, 0x34, 0x37, 0x6c],
+   .resize 10 1]
+
+/-- a faithful neighbour of KF7, 20x1: the parked position (column 15) lies beyond the screen after the resize
+    to 10x1 but inside the parameter range — CUP clamps it exactly as `normD` does, the restore is exact and
+    stays so after `CSI ?1047h ESC 8 X` -/
+theorem KF7_neighbour_ok :
+    witness 20 1 [.feedStr [esc, 0x5b, 0x3f, 0x31, 0x30, 0x34, 0x37, 0x68], .feedStr [esc, 0x5b, 0x31, 0x35, 0x43],
+        .feedStr [esc, 0x37], .feedStr [esc, 0x5b, 0x3f, 0x31, 0x30, 0x34, 0x37, 0x6c], .resize 10 1]
+      [esc, 0x5b, 0x3f, 0x31, 0x30, 0x34, 0x37, 0x68, esc, 0x38, 0x58]
+      = some { findings := [], sameAtRestore := true, obsSameAtRestore := true,
+               sameAfterProbe := true, obsSameAfterProbe := true } := by decide +kernel
+
+/-- `C11_dump_full'` is refuted by ANY reachable state on which the classifier finds nothing but KF7 and whose
+    restore differs (the concrete one: `kf7Hist` from `Vt.new 70000 1`; `kf7_refutes` in
+    Avt/Lemmas/C11KF7.lean instantiates this by kernel evaluation) -/
+theorem C11_dump_full'_false_of_witness (s r : Vt) (hr : Lemmas.C11.Reach s)
+    (hf : findings s.terminal = [.kf7]) (hres : restoreOf s = some r) (hne : normD r ≠ normD s) :
+    ¬ C11_dump_full' := by
+  intro hd
+  have h2 : resizedOnAlt s.terminal = false := by
+    cases h : resizedOnAlt s.terminal with
+    | false => rfl
+    | true => simp [findings, h] at hf
+  have h1 : cursorStepFaithful s.terminal = true := by
+    cases h : cursorStepFaithful s.terminal with
+    | true => rfl
+    | false =>
+      simp only [findings, h2, h, Bool.false_eq_true, if_false, List.nil_append] at hf
+      split at hf <;> simp at hf
+  have h6 : sizeExceedsU16 s.terminal = false := by
+    cases h : sizeExceedsU16 s.terminal with
+    | false => rfl
+    | true => simp [findings, h2, h1, h] at hf
+  obtain ⟨r', e, hn⟩ := hd s hr h2 h1 h6
+  rw [hres] at e
+  cases e
+  exact hne hn
+
+/-! ### `C11_holds` applies to a concrete non-trivial state on the ALTERNATE screen, `CSI u` route -/
+
+/-- 6x8, scrollback limit 3: red text and a saved context on the primary screen; on the alternate screen blue-
+    background text that soft-wraps, origin mode, margins 5..6, a saved context at (2, 4) with origin mode on,
+    then margins 7..8 and `ESC 8`: the cursor is parked OUTSIDE the region with origin mode on; it is moved
+    right and up (so dump step 9 emits `CSI u` `CSI 1 C` `CSI 1 A`), and the input is cut inside `CSI 1;` -/
+def exAHist : List HOp :=
+  [.feedStr [esc, 0x5b, 0x33, 0x31, 0x6d, 0x61, 0x62, 0x63, esc, 0x37],                          -- CSI 31m abc ESC 7
+   .feedStr [esc, 0x5b, 0x3f, 0x31, 0x30, 0x34, 0x37, 0x68],                                    -- CSI ?1047h
+   .feedStr [esc, 0x5b, 0x34, 0x34, 0x6d, 0x78, 0x78, 0x78, 0x78, 0x78, 0x78, 0x78, 0x78, 0x79],  -- CSI 44m x×8 y
+   .feedStr [esc, 0x5b, 0x3f, 0x36, 0x68, esc, 0x5b, 0x35, 0x3b, 0x36, 0x72],                    -- CSI ?6h CSI 5;6r
+   .feedStr [esc, 0x5b, 0x31, 0x3b, 0x33, 0x48, esc, 0x37],                                    -- CSI 1;3H ESC 7
+   .feedStr [esc, 0x5b, 0x37, 0x3b, 0x38, 0x72, esc, 0x38],                                    -- CSI 7;8r ESC 8
+   .feedStr [esc, 0x5b, 0x43, esc, 0x5b, 0x41],                                                -- CSI C  CSI A
+   .feedStr [esc, 0x5b, 0x31, 0x3b]]                                                          -- CSI 1;  (cut)
+
+def exAState : Option Vt := (Vt.new 6 8 (some 3)).bind fun v => runHist v exAHist
+
+theorem exAState_isSome : exAState.isSome = true := by decide +kernel
+
+/-- the state is as described, reachable, satisfies every hypothesis of `C11_holds`; hence its dump restores
+    it, for all continuations -/
+example : ∃ s r, exAState = some s
+    ∧ s.terminal.activeBufferType = .alternate ∧ cursorOutsideRegion s.terminal = true
+    ∧ step9Moves s.terminal = [.cuf 1, .cuu 1]
+    ∧ s.terminal.savedCtx.isDefault = false ∧ s.terminal.alternateSavedCtx.isDefault = false
+    ∧ s.parser.state = .CsiParam
+    ∧ restoreOf s = some r ∧ normD r = normD s
+    ∧ ∀ xs : List Nat, (s.feedAll xs).map obs = (r.feedAll xs).map obs := by
+  have hs := Option.some_get exAState_isSome
+  have reach : Lemmas.C11.Reach (exAState.get exAState_isSome) := by
+    refine ⟨6, 8, some 3, exAHist, by decide, by decide, ?_, hs.symm⟩
+    intro op hop c r he
+    simp only [exAHist, List.mem_cons, List.not_mem_nil, or_false] at hop
+    rcases hop with rfl | rfl | rfl | rfl | rfl | rfl | rfl | rfl <;> cases he
+  obtain ⟨r, h1, h2, _, h4⟩ := C11_holds (exAState.get exAState_isSome) reach
+    (by decide +kernel) (by decide +kernel) (by decide +kernel) (by decide +kernel)
+  exact ⟨_, r, hs.symm, by decide +kernel, by decide +kernel, by decide +kernel, by decide +kernel,
+    by decide +kernel, by decide +kernel, h1, h2, h4⟩
 
 end Avt.Props.C11
